@@ -710,7 +710,11 @@ def build_case(cid, rules, bad, queries, features):
             fact = S("bd%d_%s" % (k, cid), body, bv)
             facts.append(fact)
             call = S("bd%d_%s" % (k, cid), V('G'), bv)
-            qtext = "%s, %s, phrase(G, %s, %s), V = %s." % (pl(pre), pl(call), pl(s0), pl(s), pl(tmpl))
+            if s == NIL and k % 2 == 0:
+                # run-time phrase/2 (a literal phrase/2 goal is always rewritten to phrase/3 by goal expansion)
+                qtext = "%s, %s, Ph = phrase, call(Ph, G, %s), V = %s." % (pl(pre), pl(call), pl(s0), pl(tmpl))
+            else:
+                qtext = "%s, %s, phrase(G, %s, %s), V = %s." % (pl(pre), pl(call), pl(s0), pl(s), pl(tmpl))
             mpre, mbody = S(',', pre, call), V('G')
         qlines.append((lid, qtext, mode, kind, mpre, mbody, s0, s, tmpl, has_cut(body)))
     text = "".join(pl(r) + ".\n" for r in rules) + "".join(pl(f) + ".\n" for f in facts + inis)
